@@ -97,6 +97,35 @@ def _forget_by_index(ck, R, cm, ff):
               "forget_function does not remove the selected keys from %s" % sl, ff.where())
 
 
+def check_cache_reads_own_key(ck, cm: CacheModel, R):
+    """A value served by the memory cache for a call is the value that was put for THAT call: every
+    value MemoryCache.read_result returns is read from the resident map / the weak table under the
+    cache key of the memento it was asked about (`_cache_key_for_memento(memento)`), never under a key
+    obtained elsewhere (another call that shares the stored object, a content index, ...): two calls
+    that write different results under one override key have different values but equal content keys."""
+    fa = FA(ck, cm.cls.methods["read_result"])
+    ck.need(len(fa.fi.params) >= 2, "MemoryCache.read_result(memento) signature changed")
+    mem = fa.fi.params[1]
+    own = {"self._cache_key_for_memento(%s)" % mem, "MemoryCache._cache_key_for_memento(%s)" % mem}
+    slots = [cm.map] + ([cm.refs] if cm.refs else [])
+    n = 0
+    for r in fa.returns():
+        if r.value is None:
+            continue
+        e = fa.expand(r.value)
+        subs = [x for x in ast.walk(e) if isinstance(x, ast.Subscript) and self_attr(x.value) in slots]
+        gets = [x for x in ast.walk(e) if isinstance(x, ast.Call) and A.call_attr(x) in ("get", "pop") and self_attr(A.call_recv(x)) in slots and x.args]
+        keys = [A.norm(x.slice) for x in subs] + [A.norm(x.args[0]) for x in gets]
+        n += 1
+        ok = bool(keys) and all(k in own for k in keys)
+        ck.ob(R, fa.key(r, "reads-own-key"), ok,
+              "the served value is read under the asked memento's own cache key" if ok else
+              "read_result returns a value read under `%s`, not under the cache key of the memento it was asked about: a call can be answered with "
+              "the value cached for another call (e.g. one that wrote a different result under the same override key)" % ([k for k in keys if k not in own] or ["no cache slot"])[0],
+              fa.where(r))
+    ck.need(n >= 1, "MemoryCache.read_result returns no value")
+
+
 def check_delete_enumerates_versions(ck, R):
     """Deleting a key of the filesystem data source removes EVERY version of it: a key written twice has
     two version objects and only the newest is named by the link, so resolving the link finds one of them.
@@ -618,6 +647,7 @@ def check(ck):
     ck.run(check_keying, ck, "C05.R1")
     ck.run(check_forget_scope, ck, cm)
     ck.run(check_delete_enumerates_versions, ck, "C05.R2")
+    ck.run(check_cache_reads_own_key, ck, cm, "C05.R4")
     ck.run(check_queries_effect_free, ck, "C05.R3")
     ck.run(check_cache_coherence, ck, cm)
     ck.run(check_path_scheme, ck)
